@@ -44,7 +44,6 @@ def tokToks : Nat → List Nat → Option (List Tok × Bool)
     else if c = 37 ∧ r.head? = some 98 then
       match r with
       | _ :: b :: e :: r' =>
-        if b = 0 ∨ e = 0 then none else
         match tokToks f r' with
         | none => none
         | some (ts, t) => some (.bal b e :: ts, t)
@@ -99,8 +98,8 @@ def build : Nat → List Tok → Option (List Pat × List Tok × List Tok)
     | some (ps, c, r') => some (t.pat :: ps, t :: c, r')
     | none => none
 
-/-- **the fragment with captures** -/
-def inFragmentC (pat : List Nat) : Bool :=
+/-- the fragment with captures, bytes unrestricted (see `inFragment0` for the reading of a NUL in the pattern) -/
+def inFragmentC0 (pat : List Nat) : Bool :=
   match tokToks ((splitAnchor pat).2.length + 1) (splitAnchor pat).2 with
   | none => false
   | some (toks, _) =>
@@ -108,6 +107,9 @@ def inFragmentC (pat : List Nat) : Bool :=
     (match build (toks.length + 1) toks with
      | some (_, _, []) => true
      | _ => false)
+
+/-- **the fragment with captures** (no NUL: the domain of the 5.1 manual) -/
+def inFragmentC (pat : List Nat) : Bool := !pat.contains 0 && inFragmentC0 pat
 
 /-! ### the reference matcher on tokens -/
 
